@@ -65,6 +65,8 @@ def replay(path):
     if case.get("texts"):
         line = driver_replay.run_case({"tps": case["tps"], "arrivals": case["texts"], "t0": case["start"], "window": case["maxticks"] - case["start"]}, 0)
     else:
+        line = driver_replay.roundtrip_sim_case(case.get("seed"), 0)
+        mon = _validate([[line]], rep)
         line = driver_replay.roundtrip_case(case.get("seed"), 0)
     mon = _validate([[line]], rep)
     for v in mon.viols[:10]:
